@@ -152,7 +152,46 @@ def run(ctx):
         lim.done()
 
 
+def pinned_tables(ctx):
+    """every cell of the three JSON files against the specification-side copy (the model is regenerated from the tree's
+    own files, so an edited cell moves model and implementation together); runs before the translation so that a table
+    the translator refuses is still judged on the implementation"""
+    vlib.use_repo()
+    import athlib
+    import wma_pinned
+    dd = wma_pinned.diffs(vlib.REPO)
+    ctx.oblig('spec:WMA tables of the tree = the pinned copy of the published tables', 'correspondence', not dd,
+              '' if not dd else '%d cells / rows differ, e.g. %r' % (len(dd), dd[0]))
+    pinned_ = wma_pinned.load_pinned() if dd else None
+    for f, g, ev, k, pv, lv in dd[:60]:
+        if g is None or ev is None or k is None:
+            continue                                   # header / row-order differences: the sweeps above and C15 look for the input
+        year = {'wma-data-2015.json': 2015, 'wma-data-2023.json': 2023}.get(f)
+        ages_ = pinned_[f]['ages']
+        if year is None:                               # combined-events table: columns 1.. are the five-year bands
+            if k - 1 >= len(ages_): continue
+            age = ages_[k - 1]
+            got = W.canon_py(lambda: athlib.wma_athlon_age_factor(g, age, ev))
+            want = pv
+            fn = 'athlib.wma_athlon_age_factor'; args = [g, age, ev]; rp = 'result = athlib.wma_athlon_age_factor(%r, %r, %r)' % (g, age, ev)
+        elif k == 2:
+            got = W.canon_py(lambda: athlib.wma_world_best(g, ev, year=year)); want = pv
+            fn = 'athlib.wma_world_best'; args = [year, g, ev]; rp = 'result = athlib.wma_world_best(%r, %r, year=%d)' % (g, ev, year)
+        elif k >= 3 and k - 3 < len(ages_):
+            age = ages_[k - 3]
+            got = W.canon_py(lambda: athlib.wma_age_factor(g, age, ev, year=year)); want = pv
+            fn = 'athlib.wma_age_factor'; args = [year, g, age, ev]; rp = 'result = athlib.wma_age_factor(%r, %r, %r, year=%d)' % (g, age, ev, year)
+        else:
+            continue
+        if want is None or isinstance(want, str): continue
+        okv = got[0] == 'v' and abs(got[1] - float(want)) <= 1e-12 * max(1.0, abs(float(want)))
+        if not okv:
+            ctx.fail(fn, args, 'the tabulated value %r (published table, %s, row %s, column %d)' % (want, f, ev, k), H.show(got),
+                     note='table-cell: the table of the tree differs from the published table', replay_py=rp)
+
+
 def _run(ctx):
+    pinned_tables(ctx)
     side = H.gen_step(ctx)
     if side is None:
         return
